@@ -154,8 +154,10 @@ class Spec:
         for o in cfg["objs"]:
             self.objs[o["id"]] = {"type": o["type"], "pv": o["pv"], "fl": o["flags"], "inc": o["inc"],
                                   "period": o["period"] if o["type"] == "pulseConverter" else 0}
-        self.live = {}            # (addr,pid,obj) -> {"conf","life","deadline"}  (insertion ordered)
+        self.live = {}            # (addr,pid,obj) -> {"conf","life","deadline","inst"}  (insertion ordered)
         self.last = {}            # obj -> last reported presentValue
+        self.next_inst = 0        # a cancelled-and-remade subscription is a new instance
+        self.pending_init = []    # (key, instance) acknowledged, initial notification not yet due
 
     def capable(self, obj):
         return self.objs[obj]["type"] in ANALOG_TYPES or self.objs[obj]["type"] in GENERIC_TYPES
@@ -181,7 +183,8 @@ class Spec:
                 del self.last[obj]
 
     def subscribe(self, now, addr, pid, obj, conf, life):
-        """returns the expected outputs once the deferred work has run"""
+        """returns the expected immediate response; the initial notification is expected
+        when the deferred work runs (`drain_initials`), if that instance is then still alive"""
         if obj not in self.objs:
             return [("err", addr)]
         if not self.capable(obj):
@@ -192,10 +195,25 @@ class Spec:
             self.purge(now)
             return [("ack", addr)]
         life = life or 0
-        self.live[key] = {"conf": bool(conf), "life": life,
+        if key in self.live:
+            inst = self.live[key]["inst"]          # a renewal keeps the subscription, re-timed
+        else:
+            inst = self.next_inst
+            self.next_inst += 1
+        self.live[key] = {"conf": bool(conf), "life": life, "inst": inst,
                           "deadline": now + life * US if life else None}
-        self.last[obj] = self.objs[obj]["pv"]
-        return [("ack", addr), self.ntf(key, now)]
+        self.pending_init.append((key, inst))
+        return [("ack", addr)]
+
+    def drain_initials(self, now):
+        exp = []
+        for key, inst in self.pending_init:
+            rec = self.live.get(key)
+            if rec is not None and rec["inst"] == inst:
+                exp.append(self.ntf(key, now))
+                self.last[key[2]] = self.objs[key[2]]["pv"]
+        self.pending_init = []
+        return exp
 
     def qualifies(self, obj, prop, v):
         o = self.objs[obj]
@@ -572,7 +590,9 @@ class NetRig:
             pass
 
         class Subscriber(Stack, Listener):
-            pass
+            def confirmation(self, apdu):
+                rig.responses.append((us(rig.vt.now), self.index, apdu))
+                Stack.confirmation(self, apdu)
 
         def dev(name, inst):
             return LocalDeviceObject(objectName=name, objectIdentifier=("device", inst),
@@ -585,6 +605,7 @@ class NetRig:
             s.index = i
             self.subs.append(s)
         self.received = []
+        self.responses = []
         self.objs, self.oid = {}, {}
         for o in cfg["objs"]:
             ob = build_object(o)
@@ -647,6 +668,35 @@ class NetRig:
         else:
             head = [(t, ("noresponse", addr))]
         return head + self.take()
+
+    def subscribe_burst(self, reqs):
+        """several SubscribeCOV requests put on the wire in the same instant, the clients not
+        waiting for the previous answer (a plain Application client does that; the
+        ApplicationIOController client serialises per destination)"""
+        from bacpypes.apdu import SubscribeCOVRequest, SimpleAckPDU, Error
+        from bacpypes.app import Application
+        self.responses = []
+        for addr, pid, obj, conf, life in reqs:
+            oc = self.ocfg.get(obj)
+            oid = (oc["type"], obj + 1) if oc else ("analogValue", obj + 1)
+            r = SubscribeCOVRequest(subscriberProcessIdentifier=pid, monitoredObjectIdentifier=oid)
+            if conf is not None:
+                r.issueConfirmedNotifications = conf
+            if life is not None:
+                r.lifetime = life
+            r.pduDestination = self.iut.address
+            Application.request(self.subs[addr], r)
+        self.settle()
+        out = []
+        for t, idx, apdu in self.responses:
+            if isinstance(apdu, SimpleAckPDU):
+                out.append((t, ("ack", idx)))
+            elif isinstance(apdu, Error):
+                out.append((t, ("err", idx, str(apdu.errorClass), str(apdu.errorCode))))
+            else:
+                out.append((t, ("rsp?", idx, type(apdu).__name__)))
+        self.responses = []
+        return out + self.take()
 
     def write(self, obj, prop, v):
         ob = self.objs.get(obj)
@@ -847,6 +897,25 @@ class Gen:
         self.last[obj] = v
         return ["w", [[obj, "pv", v]]]
 
+    def request_burst(self):
+        """2..4 requests in one instant, mostly about one object: subscribe + cancel of the
+        same key, renewals, a second subscriber"""
+        rng = self.rng
+        first = self.sub_action()
+        reqs = [first[1:]]
+        for _ in range(rng.randrange(1, 4)):
+            r = rng.random()
+            if r < 0.45:
+                reqs.append([first[1], first[2], first[3], None, None])
+            elif r < 0.7:
+                life = rng.choice(LIFETIMES)
+                if life:
+                    self.deadlines.append(self.q + 4 * life)
+                reqs.append([first[1], first[2], first[3], rng.choice([True, False]), life])
+            else:
+                reqs.append(self.sub_action()[1:])
+        return ["subs", reqs]
+
     def probe(self):
         """directed interleavings around pending deferred work (no drain in between):
         cancel / renew / subscribe while an execution or an initial notification is pending"""
@@ -888,6 +957,9 @@ class Gen:
             if not self.disc and r < 0.12:
                 for a in self.probe():
                     yield a
+            elif self.disc and r < 0.07:
+                yield self.request_burst()
+                yield ["run"]
             elif r < 0.30:
                 yield self.sub_action()
                 if self.disc or rng.random() < 0.6:
@@ -914,8 +986,9 @@ class Gen:
 
 def is_disciplined(actions):
     for i, a in enumerate(actions):
-        if a[0] in ("sub", "w"):
-            if i + 1 >= len(actions) or actions[i + 1][0] not in ("run", "adv"):
+        if a[0] in ("sub", "w", "subs"):
+            ok = ("run", "adv", "sub", "subs") if a[0] != "w" else ("run", "adv")
+            if i + 1 >= len(actions) or actions[i + 1][0] not in ok:
                 return False
     return True
 
@@ -1040,7 +1113,7 @@ def run_lockstep(ctx, case, stream="lockstep"):
         rep = prim(i, {"op": "run"})
         outs = [(now, tuple(o)) for o in rep["out"]]
         judge.check_safety(i, outs)
-        finish_drain(judge, i, outs)
+        finish_drain(judge, i, outs, now)
 
     for i, a in enumerate(actions):
         kind = a[0]
@@ -1055,7 +1128,16 @@ def run_lockstep(ctx, case, stream="lockstep"):
             if got_head != [cut(exp[0])]:
                 judge.fail("no-ack" if exp[0][0] == "ack" else "wrong-response", i,
                            "response %r, expected %r" % (got_head, exp[0]))
-            judge.pending += exp[1:]
+        elif kind == "subs":
+            for q in a[1]:
+                rep = prim(i, {"op": "sub", "addr": q[0], "pid": q[1], "obj": q[2], "conf": q[3], "life": q[4]})
+                exp = judge.on_sub(i, now, ["sub"] + list(q))
+                outs = [(now, tuple(o)) for o in rep["out"]]
+                judge.check_safety(i, outs)
+                got_head = [cut(o) for _t, o in outs]
+                if got_head != [cut(exp[0])]:
+                    judge.fail("no-ack" if exp[0][0] == "ack" else "wrong-response", i,
+                               "response %r, expected %r" % (got_head, exp[0]))
         elif kind == "w":
             outs = []
             for obj, prop, v in a[1]:
@@ -1107,9 +1189,10 @@ def run_lockstep(ctx, case, stream="lockstep"):
     return judge
 
 
-def finish_drain(judge, i, outs):
+def finish_drain(judge, i, outs, now):
     """deferred work ran at one instant: exact expectations (disciplined) or bounds (any interleaving)"""
     ntfs = [o for _t, o in outs if o[0] == "ntf"]
+    judge.pending += judge.spec.drain_initials(now)
     per = {}
     for o in ntfs:
         k = (o[1], o[2], o[3])
@@ -1149,7 +1232,7 @@ def run_e2e(ctx, case, stream="e2e"):
         rig.settle()
         outs = rig.take()
         judge.check_safety(i, outs)
-        finish_drain(judge, i, outs)
+        finish_drain(judge, i, outs, now)
         return len(outs)
 
     for i, a in enumerate(actions):
@@ -1163,8 +1246,24 @@ def run_e2e(ctx, case, stream="e2e"):
             if head != [cut(exp[0])]:
                 judge.fail("no-ack" if exp[0][0] == "ack" else "wrong-response", i,
                            "response %r, expected %r" % (head, exp[0]))
-            judge.pending += exp[1:]
-            finish_drain(judge, i, [(t, o) for t, o in outs if o[0] == "ntf"])
+            finish_drain(judge, i, [(t, o) for t, o in outs if o[0] == "ntf"], now)
+            nout += len(outs)
+        elif kind == "subs":
+            # over the vlan every frame is a zero-delay task of its own and core.run drains the
+            # deferred functions after each task: the requests are handled one by one, each
+            # followed by its initial notification
+            exp = []
+            for q in a[1]:
+                exp += judge.on_sub(i, now, ["sub"] + list(q))
+                judge.pending += spec.drain_initials(now)
+            outs = rig.subscribe_burst([tuple(q) for q in a[1]])
+            # the records changed while these were emitted: contents are judged by the exact
+            # comparison below, here only exceptions / failed requests
+            judge.check_safety(i, [(t, o) for t, o in outs if o[0] != "ntf"])
+            head = sorted([cut(o) for _t, o in outs if o[0] != "ntf"], key=repr)
+            if head != sorted([cut(e) for e in exp], key=repr):
+                judge.fail("no-ack", i, "responses %r, expected %r" % (head, exp))
+            finish_drain(judge, i, [(t, o) for t, o in outs if o[0] == "ntf"], now)
             nout += len(outs)
         elif kind == "w":
             for obj, prop, v in a[1]:
